@@ -360,21 +360,32 @@ impl<'tcx> Cx<'tcx> {
     }
 
     fn body(&self, did: DefId) -> J {
+        let body = self.tcx.optimized_mir(did);
+        self.body_json(did, body, None)
+    }
+
+    fn body_json(&self, did: DefId, body: &mir::Body<'tcx>, promoted: Option<usize>) -> J {
         let tcx = self.tcx;
-        let body = tcx.optimized_mir(did);
         let kind = tcx.def_kind(did);
         let (file, line, _cl, exp) = self.loc(body.span);
         let hi = tcx.sess.source_map().lookup_char_pos(body.span.hi()).line as i128;
+        let defname = match promoted {
+            Some(i) => format!("{}::promoted[{}]", self.path(did), i),
+            None => self.path(did),
+        };
         let mut o: Vec<(&'static str, J)> = vec![
-            ("def", s(self.path(did))),
-            ("kind", s(format!("{:?}", kind))),
+            ("def", s(defname)),
+            ("kind", s(if promoted.is_some() { "Promoted".to_string() } else { format!("{:?}", kind) })),
             ("file", s(file)),
             ("line", J::Int(line)),
             ("line_hi", J::Int(hi)),
             ("from_expansion", J::Bool(exp)),
             ("arg_count", J::Int(body.arg_count as i128)),
         ];
-        if matches!(kind, DefKind::Fn | DefKind::AssocFn) {
+        if promoted.is_some() {
+            o.push(("promoted_of", s(self.path(did))));
+        }
+        if promoted.is_none() && matches!(kind, DefKind::Fn | DefKind::AssocFn) {
             let vis = tcx.visibility(did);
             let v = match vis {
                 ty::Visibility::Public => "pub".to_string(),
@@ -609,6 +620,9 @@ fn dump(tcx: TyCtxt<'_>) {
             continue;
         }
         bodies.push(cx.body(did));
+        for (pi, pb) in tcx.promoted_mir(did).iter_enumerated() {
+            bodies.push(cx.body_json(did, pb, Some(pi.as_usize())));
+        }
     }
     // ADTs and impls
     let mut adts = vec![];
